@@ -153,6 +153,21 @@ def run(ck):
     ck.ob("C08-R8", "transport/no-manual-close-of-buffer-fd", not manual, manual[0].loc if manual else "%s:%s" % (bh["file"], bh["line"]), manual[0].func if manual else "",
           "no close(buffer.fd()) by hand" if not manual else "close(buffer.fd()) at %s closes a descriptor its holder also owns (double close) or is the only path that closes it (leak elsewhere)" % manual[0].loc)
 
+    # ---------------- R9: per-connection write state only for live peers ----------------
+    ck.rule("C08-R9", "B guard dominates sink",
+            "Transport::handleWriteQueue moves a queued write into toWrite[fd] only on the isPeerFd(fd) edge: a write for a connection "
+            "that is already gone must not re-create per-descriptor state that the next user of the number would inherit", 1)
+    hwq = lib.single(prog, T + "handleWriteQueue")
+    pushes = [e for e in hwq.calls(lambda e: e.base_callee() == "std::deque::push_back")]
+    live = [b for b in hwq.blocks.values() if b.term and b.term.get("k") == "if" and ("c:" + T + "isPeerFd") in (b.term.get("refs") or [])]
+    ck.require(pushes, "push into toWrite not found in handleWriteQueue")
+    for e in pushes:
+        ok = any(cfg.edge_dominates(hwq, b.id, 1 if b.term.get("neg") else 0, e) for b in live)
+        ck.ob("C08-R9", "handleWriteQueue/push-only-for-live-peer", ok, e.loc, hwq,
+              "push_back is reached only on the isPeerFd(fd) edge" if ok else
+              "a write is moved into toWrite[fd] without knowing that fd still is a peer: state for a closed connection is re-created and leaks to "
+              "the next connection with that descriptor number")
+
     # ---------------- R7: edge-triggered drain ----------------
     ck.rule("C08-R7", "C must-pass-through (edge-triggered drain)",
             "peer sockets are registered edge-triggered, so Transport::handleIncoming may stop reading only after recv() reported "
@@ -203,6 +218,14 @@ def run(ck):
     cnt = count_on_paths(hc, lambda e: e["k"] == "call" and ((e.get("callee") or "") == "Pistache::Tcp::Listener::dispatchPeer" or libc(e, "close")),
                          start=acc[0].block, start_idx=acc[0].idx + 1)
     ck.ob("C08-R4", "handleNewConnection/accepted-fd-owned", cnt == [1], acc[0].loc, hc, "dispatchPeer|close per non-throwing path after accept: %s" % cnt)
+    # Listener::run catches SocketError and keeps accepting: a throw after accept4() must not leave the descriptor behind
+    owned = lambda e: e["k"] == "call" and ((e.get("callee") or "") == "Pistache::Tcp::Listener::dispatchPeer" or libc(e, "close"))
+    leaks = [x for x in cfg.exits_without(hc, owned, start_block=acc[0].block, start_idx=acc[0].idx + 1) if x.kind == "throw"]
+    # a throw *inside* acceptConnection itself happens before a descriptor exists: only throws of this function count
+    ck.ob("C08-R4", "handleNewConnection/no-throw-with-open-fd", not leaks, leaks[0].event.loc if leaks and leaks[0].event is not None else acc[0].loc, hc,
+          "no throw between accept and hand-over leaves the accepted descriptor open" if not leaks else
+          "the throw at line %s happens after accept4() returned a descriptor and before it is handed over or closed: the accept loop catches the "
+          "error and continues, the socket is never closed" % (leaks[0].event.get("l") if leaks[0].event is not None else "?"))
 
     # ---------------- R5 ----------------
     def disarms(e):
